@@ -29,11 +29,13 @@ GEN = ['ZernikeR']
 OPS = ['C11']
 RULE = ('cases: every Noll index 1..861 (all 41 rows n <= 40) against zernike_index; every valid (n, m) with n <= 40 for the radial '
         'coefficients (exact rational evaluation at dyadic nodes); modes j <= 231 (some to 861) on dyadic (rho, theta) nodes with both '
-        'normalisations and non-boolean masks; Gauss-Legendre x uniform-angle quadrature of products of modes j, j\' <= 66 (orthonormality '
-        'of the real functions); zernike_coordinates on random masks (even/odd sizes, off-centre blobs, weights, explicit shift/rotate); '
+        'normalisations and non-boolean masks; Gauss-Legendre x uniform-angle quadrature of products of modes j, j\' <= 231 (orthonormality '
+        'of the real functions); zernike_coordinates on random masks (even/odd sizes, off-centre blobs, weights incl. values <= 1e-8, explicit shift/rotate), '
+        'one-sample and empty masks, non-finite caller coordinates outside the mask; Noll indices at 2^31, 2^32, 1e10 and row boundaries; '
+        'refusals (index < 1, rho without theta); '
         'distinct = canonical (kind, parameters) signature; non-trivial = n >= 2 / mask not symmetric about the array centre')
 TRUSTED = ['libm sqrt/cos/sin/atan2 agree with NumPy to 1e-9', 'np.angle = atan2(imag, real), np.abs = hypot, np.max over r*mask as modelled in Model/Zernike.lean']
-UNPROVEN = ['|Z_j| <= 1 on the unit disk without normalisation (needs |R_n^m| <= 1 on [0,1]); sampled by the oracle on dyadic nodes and by quadrature',
+UNPROVEN = ['|Z_j| <= 1 on the unit disk without normalisation: reduced by raw_mode_le_radial to |R_n^m| <= 1 on [0,1], which is not proved; sampled by the oracle on dyadic nodes and by quadrature',
             'orthonormality for 20 < n <= 40 is proved (zernike_orthonormal_40) but built and audited only by the THOROUGH tier (the exact integer '
             'Gram table takes ~5 min); the quick tier carries n <= 20']
 ASSUMPTIONS = ['caller-supplied rho/theta are ndarrays (lists raise AttributeError in R for j > 1: input validation, not judged)',
@@ -99,8 +101,8 @@ def generate(rng, tier):
         # the 5-minute exact Gram table for n <= 40 and the orthonormality theorems for all 861 modes: built and audited here only
         out.append({'kind': 'lean_thorough', 'module': 'LentilVerif.Props.C11Thorough',
                     'theorems': ['Lentil.C11.gramUpTo_40', 'Lentil.C11.zernike_orthonormal_40', 'Lentil.C11.zernike_orthonormal_area_40']})
-    if tier in ('search', 'thorough'):
-        # extremes: indices near 2^31, 2^32 and 10^10 (float row search), row boundaries n(n+1)/2 and n(n+1)/2 + 1
+    if True:
+        # extremes (every tier, 13 calls): indices near 2^31, 2^32 and 10^10 (float row search), row boundaries n(n+1)/2 and n(n+1)/2 + 1
         big = [2 ** 31 - 1, 2 ** 31, 2 ** 32 + 1, 10 ** 9, 10 ** 10 + 7]
         for n in (1000, 46340, 65535, 92681):
             big += [n * (n + 1) // 2, n * (n + 1) // 2 + 1]
@@ -154,6 +156,9 @@ def generate(rng, tier):
         for sh in ((257, 64), (90, 301)):                       # large arrays, off-centre weighted masks
             m = _mask(rng, sh)
             out.append({'kind': 'coords', 'shape': list(sh), 'mask': [float(x) for x in m.ravel()], 'shift': None, 'rotate': 0.0})
+    out.append({'kind': 'coords', 'shape': [4, 5], 'mask': [0.0] * 20, 'shift': None, 'rotate': 0.0, 'j': 4, 'normalize': True, 'one_sample': True, 'empty': True})
+    out.append({'kind': 'refusal', 'what': 'index0'}); out.append({'kind': 'refusal', 'what': 'index-negative'})
+    out.append({'kind': 'refusal', 'what': 'rho-without-theta'})
     for k in range({'quick': 3, 'thorough': 20, 'search': 3}[tier]):
         sh = (int(rng.integers(3, 8)), int(rng.integers(3, 8)))
         m = np.zeros(sh); m[int(rng.integers(0, sh[0])), int(rng.integers(0, sh[1]))] = 1.0
@@ -164,6 +169,7 @@ def generate(rng, tier):
 def signature(c):
     k = c['kind']
     if k == 'lean_thorough': return 'lean_thorough ' + c['module']
+    if k == 'refusal': return 'refusal ' + c['what']
     if k == 'index': return f"index {c['j0']}..{c['j1']}"
     if k == 'index_list': return f"index_list {c['js'][:3]}"
     if k == 'radial': return f"radial {c['n']} {c['m']} /{c['den']}"
@@ -173,7 +179,7 @@ def signature(c):
 
 def nontrivial(c):
     k = c['kind']
-    if k in ('index', 'index_list', 'lean_thorough'): return True
+    if k in ('index', 'index_list', 'lean_thorough', 'refusal'): return True
     if k == 'radial': return c['n'] >= 2
     if k == 'zern': return c['j'] >= 4
     if k == 'gram': return max(c['j'], c['j2']) >= 4
@@ -182,6 +188,7 @@ def nontrivial(c):
 def tags(c):
     k = c['kind']; t = [k]
     if k == 'lean_thorough': return t + ['thorough-tier Lean module: orthonormality n<=40']
+    if k == 'refusal': return t + ['refusal:' + c['what']]
     if k == 'zern':
         t += ['zern:normalized' if c['normalize'] else 'zern:raw', 'zern:n<=20' if c['j'] <= 231 else 'zern:n>20']
         if c.get('bad_outside'): t.append('zern:non-finite-coordinates-outside-mask')
@@ -223,8 +230,21 @@ def _lean_thorough(c):
     return {'ok': not bad and not hits, 'why': f'axiom audit failed for {bad}: {ax}; forbidden tokens {hits}' if (bad or hits) else '',
             'axioms': {n: ax.get(n) for n in c['theorems']}, 'build_s': b['wall_s']}
 
+def _refusal(c):
+    vlib.import_lentil()
+    import lentil, sys
+    Z = sys.modules['lentil.zernike']
+    try:
+        if c['what'] == 'index0': Z.zernike_index(0)
+        elif c['what'] == 'index-negative': Z.zernike_index(-3)
+        else: lentil.zernike(np.ones((3, 3)), 4, rho=np.ones((3, 3)) / 2)
+        return {'raised': None}
+    except Exception as e:
+        return {'raised': type(e).__name__}
+
 def _impl(c):
     if c['kind'] == 'lean_thorough': return _lean_thorough(c)
+    if c['kind'] == 'refusal': return _refusal(c)
     vlib.import_lentil()
     import lentil, sys
     Z = sys.modules['lentil.zernike']      # `lentil.zernike` the attribute is the function; the module lives in sys.modules
@@ -274,7 +294,7 @@ def _impl(c):
 
 def requests(c, io):
     k = c['kind']
-    if k == 'lean_thorough': return []
+    if k in ('lean_thorough', 'refusal'): return []
     if k == 'index': return [{'op': 'noll', 'j0': c['j0'], 'j1': c['j1']}]
     if k == 'index_list': return [{'op': 'noll_list', 'js': c['js']}]
     if k == 'radial':
@@ -309,7 +329,7 @@ def _zscale(j, normalize, rho):
 
 def compare(c, io, mo):
     k = c['kind']
-    if k in ('gram', 'lean_thorough'): return None
+    if k in ('gram', 'lean_thorough', 'refusal'): return None
     m = mo[0]
     if 'exc' in io: return f"implementation raised {io['exc']}: {io.get('msg')}"
     if not m.get('ok'): return f"model refused: {m.get('err')}"
@@ -362,6 +382,8 @@ def compare(c, io, mo):
 # ------------------------------------------------------------------------------------------ oracle (real code only)
 def oracle(c, io):
     k = c['kind']
+    if k == 'refusal':
+        return None if io.get('raised') == 'ValueError' else f"{c['what']}: expected ValueError (no Noll index < 1; rho needs theta), got {io.get('raised')}"
     if k == 'lean_thorough':
         return None if io.get('ok') else f"thorough-tier theorems {c['theorems']} (radial Gram table and orthonormality for n <= 40) no longer check: {io.get('why')}"
     if 'exc' in io: return f"{k}: implementation raised {io['exc']}: {io.get('msg')}"
@@ -413,6 +435,9 @@ def oracle(c, io):
     # coords
     sh = tuple(c['shape']); mask = np.array(c['mask']).reshape(sh) != 0
     rho = np.array(io['rho']).reshape(sh); th = np.array(io['theta']).reshape(sh)
+    if mask.sum() == 0:
+        z = np.array(io.get('z', [0.0])); bad = not np.all(z == 0)
+        return 'empty mask (one-sample mask class): everything is outside the mask, the modes must be zero — got NaN (centroid 0/0)' if bad or not np.all(np.isfinite(rho)) else None
     if mask.sum() == 1 and c['shift'] is None:
         # the farthest masked sample is the origin itself: rho cannot be 1 there; the property still demands zeros outside the mask
         if 'z' in io:
